@@ -105,7 +105,7 @@ class C09(SeqProp):
     rule = ("scenario streams: (1) groups of Desc::new calls whose fq name / help / constant / variable label names come from an alphabet "
             "with ASCII letters, digits, _ : - space, non-ASCII letters and digits, empty and digit-led strings, names repeated among constant "
             "and variable labels; (2) Counter/Gauge/Histogram/*Vec/PullingGauge constructors over namespace/subsystem/name triples and label "
-            "pools that contain le; (3) registries with (in)valid prefix / common labels, metrics and vector children whose labels may clash "
+            "pools that contain le, Opts values that already carry variable labels (also together with an empty list of names); (3) registries with (in)valid prefix / common labels, metrics and vector children whose labels may clash "
             "with the common labels, register/unregister, gather; thorough adds every string of length <= 3 over a 9-symbol alphabet as fq name, "
             "constant label name and variable label name.  non-trivial = some constructor was refused or a gather returned a family; "
             "distinct = distinct scenario text")
